@@ -202,7 +202,7 @@ ob("crypt_exemptions", ["C06"], "crypt.rs", unwind=50, cuts=X1_ERR, stubs=[FMT_S
 CTX_STUB = "md5::Context::{new, consume, compute} -> recording stubs (X7): the byte sequence hashed by Algorithm 2 is what is checked"
 for rev in (2, 3):
     ob("crypt_kdf_user_rev%d" % rev, ["C06"], "crypt.rs", unwind=54, cuts=X1_ALL, stubs=[FMT_STUB, RS_STUB, MD5_STUB, RC4_STUB, CTX_STUB],
-       timeout=2400, mem_gb=24, replay=False, tier="quick" if rev == 2 else "thorough",
+       timeout=2400, mem_gb=24, tier="quick" if rev == 2 else "thorough",
        functions=["crypt::Decoder::from_password", "crypt::Decoder::from_password::key_derivation_user_password_rc4",
                   "crypt::Decoder::from_password::check_password_rc4"],
        bound="revision %d, every user password of 0..=40 bytes, every /P, key size %s: hashed bytes = pad32(password) || O || P_le || ID, "
@@ -252,7 +252,8 @@ for g, ops_ in CONTENT_GROUPS.items():
        bound="operator keywords %s with well-formed operands; every finite f32 / every i32 numeric operand" % " ".join(ops_))
 
 F32_STUB = "<f32 as Display>::fmt -> writes the bit pattern as token Fxxxxxxxx (number formatting itself is Out)"
-ob("content_ser_move_curve", ["C08"], "content_ser.rs", unwind=12, cuts=X1_ALL, stubs=[FMT_STUB, F32_STUB], timeout=1200, mem_gb=16,
+# NOT REGISTERED: did not finish in 20 min (fmt::write / io::Write machinery with symbolic output length)
+ob("content_ser_move_curve", ["C08"], "content_ser.rs", tier="infeasible", unwind=12, cuts=X1_ALL, stubs=[FMT_STUB, F32_STUB], timeout=1200, mem_gb=16,
    functions=["content::serialize_ops"], bound="[MoveTo, CurveTo] for every finite point: c / v / y choice reads back")
 
 # ---------------------------------------------------------------------------------------------------------------------
@@ -325,6 +326,17 @@ ob("backend_locate_header", ["C01"], "backend.rs", unwind=9, cuts=X1_ERR, stubs=
 # ---------------------------------------------------------------------------------------------------------------------
 # parser/mod.rs (experimental: one level of the object parser)
 # ---------------------------------------------------------------------------------------------------------------------
+X1_FONT = X1_ALL + ["font::Font", "font::FontData", "font::CIDFont", "font::FontDescriptor", "font::Widths"]
+for h in ("font2_w_array_ascending", "font2_w_array_descending"):
+    ob(h, ["X94"], "font2.rs", unwind=8, cuts=X1_FONT, stubs=[FMT_STUB, RS_STUB], timeout=1500, mem_gb=16,
+       functions=["font::Font::widths", "font::Widths::set", "font::Widths::_set", "font::Widths::get"],
+       bound="/W [2 [a b] 6 7 c] (%s order) with symbolic widths and /DW, every code 0..=10" % h[14:])
+ob("parser2_name3", ["X95"], "parser2.rs", unwind=7, unwindset=[(r"^core::slice::memchr::memchr_naive$", 0, 11)], unwindset_optional=True, cuts=X1_ALL, guards=[r"^parser::parse_with_lexer_ctx::<", r"^parser::parse_dictionary_object::<"],
+   stubs=[FMT_STUB], timeout=10000, mem_gb=24, functions=["parser::_parse_with_lexer_ctx"], bound="names of 3 ASCII bytes")
+ob("types2_page_shape_a", ["X96"], "types2.rs", unwind=5, cuts=X1_PAGE, stubs=[FMT_STUB, RS_STUB], timeout=1500, mem_gb=16,
+   unwindset=[(r"^object::types::PageTree::page_limited::<", None, 3)], unwindset_optional=True,
+   functions=["object::types::PageTree::page", "object::types::PageTree::page_limited"],
+   bound="shape root[T[], L, T[L, L]], every page index 0..=4, fresh nodes per request")
 ob("typesprobe_descent", ["X98"], "types_probe.rs", unwind=4, cuts=X1_ERR, timeout=300, functions=[], bound="probe")
 ob("typesprobe_descent_b", ["X97"], "types_probe.rs", harness="typesprobe_descent", unwind=4, cuts=X1_ALL, timeout=300, functions=[], bound="probe")
 PARSER_GUARDS = [r"^parser::parse_with_lexer_ctx::<", r"^parser::parse_dictionary_object::<"]
